@@ -433,6 +433,23 @@ fn random_history(rng: &mut Rng, max_len: usize, builders_first: bool, allow_sub
         for _ in 0..1 + rng.below(3) { ops.push(random_op(rng, false, false)); }
         return ops;
     }
+    // structured stream with a metrics builder in the middle: filter on, advances, a lookahead
+    // across filtered tokens, a metrics builder (the held positions, the buffered lookahead
+    // included, are re-measured), advances
+    if !builders_first && !allow_sublex && rng.chance(1, 6) {
+        let masks = [1u32, 3, 5, 15];
+        ops.push(Op::WithFilter(Some(*rng.pick(&masks))));
+        for _ in 0..1 + rng.below(2) { ops.push(Op::Next); }
+        if rng.chance(3, 4) { ops.push(Op::Peek); }
+        ops.push(match rng.below(3) {
+            0 => Op::WithTabWidth(1 + rng.below(8) as u8),
+            1 => Op::WithLineEnding(*rng.pick(LINE_ENDINGS)),
+            _ => Op::WithMetrics(*rng.pick(LINE_ENDINGS), 1 + rng.below(8) as u8),
+        });
+        ops.push(Op::Spans);
+        for _ in 0..1 + rng.below(3) { ops.push(random_op(rng, false, false)); }
+        return ops;
+    }
     // structured stream without sub-lex marks: filter on, advances, a lookahead
     // (peek / failed conditional advance / advance_up_to), a filter change, advances
     if !builders_first && !allow_sublex && rng.chance(1, 3) {
